@@ -1,6 +1,7 @@
 import LP.Props.C11
 import LP.Props.C11Roots
 import LP.Props.C12Exact
+import LP.Props.C11Fallback2
 #print axioms LP.Eval.C11_sign_change_root
 #print axioms LP.Eval.C11_identically_zero
 #print axioms LP.Eval.C10_sign_interval_only
@@ -12,3 +13,8 @@ import LP.Props.C12Exact
 #print axioms LP.realRoots_isolates
 #print axioms LP.Eval.C11_rootsUnder_exact
 #print axioms LP.Eval.identicallyZero_sound
+#print axioms LP.Eval.hasDerivAt_specR
+#print axioms LP.Eval.isoLoopM_sound
+#print axioms LP.Eval.rootBoundM_spec
+#print axioms LP.Eval.reduceLeading_spec
+#print axioms LP.Eval.rootsByIntervals_sound
